@@ -44,6 +44,8 @@ def cases(tier, seed):
             for lab, o in zoo.option_configs(name, ds, 'quick'):
                 if o['n_components'] in (1, d - 1, d, None):
                     out.append(('%s/%s/%s' % (name, dsn, lab), (name, dsn, lab, o, seed)))
+                    if name == 'NCA' and o['n_components'] is None and not isinstance(o['init'], str) or (name == 'NCA' and o['n_components'] is None and o['init'] in ('identity', 'pca')):
+                        out.append(('NCA/%s/%s,singleton_class' % (dsn, lab), (name, dsn, lab + ',singleton_class', o, seed)))
         for lab, o in zoo.option_configs('LMNN', ds, 'quick'):
             if o['n_components'] in (1, d, None) or tier == 'thorough':
                 for k in (1, 2, 3):
@@ -85,6 +87,9 @@ def run_case(spec):
     if name in ('NCA', 'MLKR'):
         mod = ml.nca if name == 'NCA' else ml.mlkr
         y = ds.y if name == 'NCA' else ds.yreg
+        if name == 'NCA' and 'singleton' in lab:
+            y = ds.y.copy()
+            y[len(y) // 2] = y.max() + 1          # one class with exactly one member (it is still everybody's candidate neighbour)
         site = name + '.fit'
         rec = {}
         real_min = mod.minimize
